@@ -100,10 +100,14 @@ def rule_callorder(P) -> RuleResult:
     if ok:
         res.ok({'function': prep.fq, 'clause_combinations_executed': ncases, 'order': 'open_opt -> close_opt -> clear_opt'})
     # both row generators and PRINT start from prepare()
+    from .sx_tables import rule_rowgen
+    rg = rule_rowgen(P)
     for cname in ('EntriesTable', 'PostingsTable'):
+        bad = [f for f in rg.findings if f.detail == 'rowgen:prepare' and f.construct.endswith(f'{cname}.__iter__')]
         it = m.classes[cname].methods.get('__iter__') if cname in m.classes else None
-        if it is None or 'self.prepare()' not in unparse(it.node):
-            res.fail(f'{QE}:{cname}.__iter__', 'callorder:prepare', f'{cname} must iterate the prepared entries', loc(it) if it else '')
+        if it is None or bad:
+            res.fail(f'{QE}:{cname}.__iter__', 'callorder:prepare', f'{cname} must iterate the prepared entries (self.prepare(), directly or '
+                     f'through the generator it builds on)', loc(it) if it else '')
         else:
             res.ok({'generator': f'{cname}.__iter__', 'source': 'self.prepare()'})
     return res
